@@ -567,12 +567,6 @@ package cl
 //@   count-stores argPos
 //@   ensures consumes-one: $nstore_argPos == 1 && c.argPos == old(c.argPos) + 1
 
-// ~:R spells only the lowest group of digits with the ordinal word tables:
-// from the second group on, units and teens come from the cardinal tables.
-//@ func cl.(*control).dirR
-//@   property C15
-//@   loop rangeindex+1<len(cardinalTriples): invariant higher-groups-are-cardinal: rangeindex >= 0 ==> (idof(one) == idof(cardinalOne) && offof(one) == offof(cardinalOne) && idof(teen) == idof(cardinalTeen) && offof(teen) == offof(cardinalTeen))
-
 // ~[ consumes an argument only when it has no prefix parameter (or a : / @ modifier).
 //@ func cl.(*control).dirCond
 //@   property C15
